@@ -14,6 +14,8 @@ from typing import Any, Mapping, Union
 
 from . import fst
 
+from .fst_core import _get_fmtval_interp_strs
+
 from .asttypes import (
     ASTS_LEAF_FTSTR_FMT,
     AST,
@@ -509,8 +511,18 @@ def _get_one_JoinedStr_TemplateStr_values(
         typ = 'f' if child_cls is FormattedValue else 't'
         fmt, _ = childf._make_fst_and_dedent(childf, copy_ast(child), childf.loc, prefix, quotes, docstr=False)
         lprefix = len(prefix)
+        values = [fmt.a]
+
+        if (strs := _get_fmtval_interp_strs(fmt)) and (dbg_str := strs[0]) is not None:  # self-documenting field, its text is a Constant in front of it
+            _, _, dbg_end_ln, dbg_end_col = strs
+            dbg_ln, dbg_col, _, _ = fmt.loc
+            ls = fmt._lines
+
+            values.insert(0, Constant(value=dbg_str, lineno=dbg_ln + 1, col_offset=ls[dbg_ln].c2b(dbg_col + 1),
+                                      end_lineno=dbg_end_ln + 1, end_col_offset=ls[dbg_end_ln].c2b(dbg_end_col)))
+
         ret = fst.FST((JoinedStr if typ == 'f' else TemplateStr)
-                      (values=[fmt.a], lineno=fmt.lineno, col_offset=fmt.col_offset - lprefix,
+                      (values=values, lineno=fmt.lineno, col_offset=fmt.col_offset - lprefix,
                        end_lineno=fmt.end_lineno, end_col_offset=fmt.end_col_offset + len(quotes)),
                       fmt._lines, None, from_=self, lcopy=False)
 
